@@ -163,6 +163,37 @@ def run_case(case, ctx):
                     pass
                 except Exception as e:  # noqa
                     ctx.fail("generic/Batcher/exception-%s" % type(e).__name__, repr(e))
+        if B is not None and width == 1 and typ == "list":
+            # the wrapped list changes after the Batcher was made (it is a view, not a copy - or a copy, the statement does not
+            # say): what it presents afterwards must be the batches of ONE list, the current one or the one it was made from
+            data = list(cols[0])          # a Batcher of its own, so that the parts below still see the original columns
+            B = G.Batcher(data, bs)
+            len(B)
+            old_data = list(data)
+            if (n + bs) % 2:
+                data.extend([901, 902, 903][:1 + n % 3])
+            elif data:
+                del data[-(1 + n % 2):]
+            else:
+                data.append(900)
+
+            def present():
+                ln2 = len(B)
+                got2 = [B[i] for i in range(ln2)]
+                try:
+                    B[ln2]
+                    got2.append("no IndexError at len")
+                except IndexError:
+                    pass
+                return ln2, got2
+            seen2 = guard(ctx, "Batcher-after-the-data-changed", present)
+
+            def view(d):
+                k = math.ceil(len(d) / bs)
+                return k, [d[i * bs:(i + 1) * bs] for i in range(k)]
+            ctx.need(seen2 in (view(old_data), view(list(data))), "generic/Batcher/inconsistent-after-the-data-changed",
+                     lambda: "bs=%d data %r -> %r: Batcher presents len=%r batches=%r" % (bs, old_data, list(data), seen2[0], seen2[1]))
+            ctx.label("batcher-data-changed-after-construction")
         # BatcherIter: lists of items; unequal lengths -> shortest wins
         cut = case.get("cut", 0)
         lens = [n] + [max(0, n - cut)] * (width - 1)
